@@ -15,6 +15,9 @@ pub enum DispatchPhase {
     AfterMove,
     /// all trains finished, right before the timed paths are returned
     Final,
+    /// the free-path update after moving train `train_idx` has produced errors and
+    /// `run_dispatch` is about to return them (`link_disp_auths` is empty in this phase)
+    Failed,
 }
 
 /// Read-only view of the dispatcher state
